@@ -69,6 +69,8 @@ class CfgOp(Op):
 
     def _edges(self, op):
         m, a = op["method"], op.get("args", [])
+        if op.get("cfg_arg"):
+            return []
         if m in ("add", "discard", "remove", "contains"):
             return [a[0]]
         if m in ("update", "ior", "isub", "iand", "ixor", "or", "and", "sub", "xor", "eq", "le", "isdisjoint"):
@@ -81,6 +83,8 @@ class CfgOp(Op):
             out += [(e[0], ("cb", "px")), (e[1], ("cb", "px"))]
         if op["method"] in ("out_edges", "in_edges"):
             out.append((op["args"][0], ("cb", "px")))
+        if op.get("cfg_arg"):
+            out.append((op["cfg_arg"], ("ir",)))
         return out
 
     def touched(self, w, op):
@@ -103,20 +107,25 @@ class CfgOp(Op):
         elif m == "clear":
             fn = lambda: C.clear()
         elif m == "update":
-            es = [mk_edge(w, e) for e in a[0]]
             style = op.get("style", "list")
-            arg = iter(es) if style == "iter" else (OSet(es) if style == "set" else es)
+            if op.get("cfg_arg"):
+                # another CFG object (possibly this very one) as the argument, or a lazy walk over it
+                oc = w.objs[op["cfg_arg"]].cfg
+                arg = iter(oc) if style == "iter" else ((e for e in oc) if style == "set" else oc)
+            else:
+                es = [mk_edge(w, e) for e in a[0]]
+                arg = iter(es) if style == "iter" else (OSet(es) if style == "set" else es)
             fn = lambda: C.update(arg)
         elif m in ("ior", "isub", "iand", "ixor"):
-            es = OSet(mk_edge(w, e) for e in a[0])
+            es = w.objs[op["cfg_arg"]].cfg if op.get("cfg_arg") else OSet(mk_edge(w, e) for e in a[0])
             name = "__%s__" % m
             fn = lambda: getattr(C, name)(es)
         elif m in ("or", "and", "sub", "xor", "eq", "le"):
-            es = OSet(mk_edge(w, e) for e in a[0])
+            es = w.objs[op["cfg_arg"]].cfg if op.get("cfg_arg") else OSet(mk_edge(w, e) for e in a[0])
             f2 = {"or": operator.or_, "and": operator.and_, "sub": operator.sub, "xor": operator.xor, "eq": operator.eq, "le": operator.le}[m]
             fn = (lambda: f2(es, C)) if op.get("reflected") else (lambda: f2(C, es))
         elif m == "isdisjoint":
-            es = OSet(mk_edge(w, e) for e in a[0])
+            es = w.objs[op["cfg_arg"]].cfg if op.get("cfg_arg") else OSet(mk_edge(w, e) for e in a[0])
             fn = lambda: C.isdisjoint(es)
         elif m == "contains":
             e = mk_edge(w, a[0])
@@ -153,6 +162,11 @@ class CfgOp(Op):
         m, a = op["method"], op.get("args", [])
         owner = ("C11",)
         exp = None
+        if op.get("cfg_arg"):
+            # the argument is a CFG object: its edge set as it was BEFORE the operation (it may be
+            # this very CFG: s |= s, s -= s, s ^= s, s.update(s), s == s ...)
+            a = [[[e[0], e[1], list(e[2]) if e[2] is not None else None] for e in sorted(w.m.nodes[op["cfg_arg"]].a["cfg"], key=repr)]]
+            w.counters["probe:cfg_object_as_argument" + ("_self" if op["cfg_arg"] == op["ir"] else "")] += 1
         try:
             if m == "add":
                 S.add(norm_edge(a[0]))
